@@ -14,6 +14,11 @@ def execute(case):
     try:
         # every seventh case: the score played twice by concatenating one object with itself (shared Message objects)
         seq = doubled(score, via(idx)) if idx % 7 == 6 else build(score, via(idx))
+        if idx % 5 == 3:
+            # history: the object was split by the same capacities before and changed in place since
+            seq.split(list(caps))
+            seq.transpose(1)
+            seq.set_channel(1 if idx % 2 else 0)
         line["src"] = P.raw_rel(seq)
         line["absBefore"] = P.raw_abs(seq)
         pieces = seq.split(list(caps))
